@@ -97,6 +97,10 @@ def run_chunk(chunk):
     for us in unrelated_statuses:
         for allow in (False, True):
             run_case(st, base, naming, fmt, ps, us, allow)
+            if naming == "plain" and fmt == "bumpver.toml":
+                run_case(st, base, naming, fmt, ps, us, allow, extra=("--ignore-vcs-tag",))
+                if us in ("clean", "modified-unstaged"):
+                    run_case(st, base, naming, fmt, ps, us, allow, extra=("--tag-scope", "branch"))
     # a crowd of other dirty files around the pattern file in git's (sorted) status listing
     for crowd in (3, 12, 25):
         for allow in (False, True):
@@ -105,7 +109,7 @@ def run_chunk(chunk):
     return st
 
 
-def run_case(st, base, naming, fmt, ps, us, allow, crowd=0):
+def run_case(st, base, naming, fmt, ps, us, allow, crowd=0, extra=()):
     pfile, ufile = NAMINGS[naming]
     d = os.path.join(base, "repo")
     if os.path.exists(d):
@@ -140,14 +144,14 @@ def run_case(st, base, naming, fmt, ps, us, allow, crowd=0):
     before = gw.state()
     staged_names = set(x for x in gw.git("diff", "--cached", "--name-only", "-z").split("\0") if x)
     status_text = before["status"]
-    args = ["update", "--patch", "--no-fetch"] + (["--allow-dirty"] if allow else [])
+    args = ["update", "--patch", "--no-fetch"] + (["--allow-dirty"] if allow else []) + list(extra)
     o = world.cli(*args)
     after_tree = world.read_tree(".")
     after = gw.state()
     st.evaluations += 1
     st.transitions += 1
     st.validated += 1
-    case = {"naming": naming, "format": fmt, "pattern_file": ps, "unrelated_file": us, "allow_dirty": allow, "crowd": crowd}
+    case = {"naming": naming, "format": fmt, "pattern_file": ps, "unrelated_file": us, "allow_dirty": allow, "crowd": crowd, "extra": list(extra)}
     st.observe((case, o.exit, o.crashed, sorted(after_tree.items()), after["status"], len(after["tags"])))
     st.state(case.items())
     if ps != "clean" or us != "clean":
@@ -156,7 +160,7 @@ def run_case(st, base, naming, fmt, ps, us, allow, crowd=0):
     pattern_dirty = ps != "clean"
     must_abort = pattern_dirty or (tracked_change_u and not allow)
     unchanged = after_tree == before_tree and after["head"] == before["head"] and after["tags"] == before["tags"] and after["status"] == before["status"]
-    ctx = f"{naming}:{'allow-dirty' if allow else 'strict'}"
+    ctx = f"{naming}:{'allow-dirty' if allow else 'strict'}" + (":" + extra[0].lstrip("-") if extra else "")
     if must_abort:
         if o.exit == 0 or not unchanged:
             st.outcomes["violation"] += 1
@@ -197,5 +201,5 @@ def replay(case, st):
 
     world.set_today(dt.date(2033, 3, 3))
     base = pool.fresh_dir("c11r")
-    run_case(st, base, case["naming"], case["format"], case["pattern_file"], case["unrelated_file"], case["allow_dirty"], crowd=case.get("crowd", 0))
+    run_case(st, base, case["naming"], case["format"], case["pattern_file"], case["unrelated_file"], case["allow_dirty"], crowd=case.get("crowd", 0), extra=tuple(case.get("extra", ())))
     os.chdir("/")
